@@ -3,6 +3,7 @@ builtins and methods of builtin containers (mixin of Engine)."""
 from __future__ import annotations
 
 import ast
+import itertools
 
 import z3
 
@@ -17,6 +18,9 @@ PLAIN_DECORATORS = {"classmethod", "staticmethod", "property", "abstractmethod",
 MEMO_DECORATORS = {"cache", "lru_cache"}
 INLINED = {}     # qualname -> number of times the REAL body was executed symbolically in this process
 SUMMARIZED = {}  # qualname -> number of call sites answered by the callee's contract
+
+
+_FRAME_IDS = itertools.count(1)
 
 
 class CallMixin:
@@ -63,7 +67,7 @@ class CallMixin:
                 return self.call_memoized(fi, args, kwargs, st, closure)
             if d not in PLAIN_DECORATORS and d not in MEMO_DECORATORS:
                 raise Unsupported(f"decorator @{d} on {q}: its effect on the function is not modelled")
-        frame = {"__module__": fi.module, "__func__": q, "__funcinfo__": fi}
+        frame = {"__module__": fi.module, "__func__": q, "__funcinfo__": fi, "__frame_id__": next(_FRAME_IDS)}
         if closure is not None:
             frame["__closure__"] = closure
         params = list(fi.params)
@@ -120,7 +124,10 @@ class CallMixin:
         nframes = len(st.frames)
         for k, v, s in self.exec_block(fi.body, st):
             assert len(s.frames) == nframes, (q, len(s.frames), nframes)
-            s.frames.pop()
+            done = s.frames.pop()
+            if done.get("__made_closure__"):
+                # closures capture VARIABLES, not values: a closure that outlives this call sees the last binding of each captured name
+                s.ghost["__dead_frames__"] = {**s.ghost.get("__dead_frames__", {}), done["__frame_id__"]: done}
             s.depth -= 1
             if k == "raise":
                 out.append(("raise", v, s))
@@ -798,4 +805,30 @@ class CallMixin:
             return [("val", ("bytes_of", recv), st)]
         if name == "strip":
             return [("val", self.hooks.str_strip(self, st, recv), st)]
+        if name == "join" and len(args) == 1 and not kwargs:
+            # sep.join(items): the items must all be str - join does NOT convert (TypeError on the first item that is not a str)
+            try:
+                items = self.iter_items(args[0], st)
+            except Unsupported:
+                items = None
+            if items is None:
+                maybe_bad, definitely_bad = True, False
+            else:
+                definitely_bad = any(not (isinstance(x, str) or is_sym(x, "str")) and not isinstance(x, Opt) and not is_sym(x, "any") for x in items)
+                maybe_bad = definitely_bad or any(isinstance(x, Opt) or is_sym(x, "any") for x in items)
+            if definitely_bad:
+                return self.raise_ext(st, "TypeError", "sequence item: expected str instance")
+            out = []
+            if maybe_bad:
+                out.extend(self.raise_ext(st.fork(), "TypeError", "sequence item: expected str instance"))
+            if items is not None and not maybe_bad:
+                parts = []
+                for i, x in enumerate(items):
+                    if i:
+                        parts.append(recv)
+                    parts.append(x)
+                if all(isinstance(p_, str) for p_ in parts):
+                    return [("val", "".join(parts), st)]
+                return [("val", Sym("str", simp(z3.Concat([zstr(p_) for p_ in parts])) if len(parts) > 1 else zstr(parts[0])), st)]
+            return out + [("val", fresh("str", "joined"), st)]
         raise Unsupported(f"str.{name}")
